@@ -308,6 +308,12 @@ def run(chk, F):
         c06_cursor = None
     if c06_cursor is not None:
         c06_cursor.run(chk, c)
+    try:
+        from rules import c06_children
+    except ImportError:
+        c06_children = None
+    if c06_children is not None:
+        c06_children.run(chk, c, F)
     run_r5(chk, F)
     chk.assumptions += [
         "decides three structural panic sources in dora-parser; value-dependent unwrap/index sites in dora-frontend "
